@@ -49,7 +49,17 @@ def fresh_read(res: CheckResult, prog: Program):
 def handler_covers(res: CheckResult, prog: Program):
     fi = prog.func('MosCollection.merge')
     hier = ExcHier(prog)
-    tries = [n for n in ast.walk(fi.node) if isinstance(n, ast.Try)]
+    # merge() itself and the methods of the collection it calls on self (a loop body extracted into a helper)
+    scope, todo = [fi], [fi]
+    while todo:
+        f = todo.pop()
+        for c in ast.walk(f.node):
+            if isinstance(c, ast.Call) and isinstance(c.func, ast.Attribute) and isinstance(c.func.value, ast.Name) and c.func.value.id in ('self', 'cls'):
+                g = fi.cls.find(c.func.attr) if fi.cls is not None else None
+                if g is not None and g not in scope and g.kind != 'property':
+                    scope.append(g)
+                    todo.append(g)
+    tries = [n for f in scope for n in ast.walk(f.node) if isinstance(n, ast.Try)]
     ok = False
     detail = 'no try/except around the merge step'
     for t in tries:
@@ -723,6 +733,37 @@ def _cli_rest(res: CheckResult, prog: Program, dm, hier):
 MEMO_DECORATORS = ('lru_cache', 'functools.lru_cache', 'cache', 'functools.cache')
 
 
+STR_RESULT_METHODS = {'strip', 'lstrip', 'rstrip', 'lower', 'upper', 'title', 'casefold', 'capitalize', 'replace', 'format', 'join', 'removeprefix', 'removesuffix',
+                      'zfill', 'ljust', 'rjust', 'center', 'swapcase', 'expandtabs', 'translate',
+                      'startswith', 'endswith', 'isdigit', 'isalpha', 'isalnum', 'isspace', 'isupper', 'islower', 'isnumeric', 'isdecimal', 'isidentifier', 'istitle',
+                      'index', 'rindex', 'count'}          # (not find: Element.find returns a mutable node)
+
+
+def _immutable_result(v) -> bool:
+    """syntactically certain that the value is a str / number / bool / None / tuple of those: sharing it is harmless"""
+    if isinstance(v, (ast.Constant, ast.JoinedStr, ast.Compare)):
+        return True
+    if isinstance(v, ast.BoolOp):
+        return all(_immutable_result(x) for x in v.values)
+    if isinstance(v, ast.UnaryOp):
+        return isinstance(v.op, ast.Not) or _immutable_result(v.operand)
+    if isinstance(v, ast.IfExp):
+        return _immutable_result(v.body) and _immutable_result(v.orelse)
+    if isinstance(v, ast.Tuple):
+        return all(_immutable_result(x) for x in v.elts)
+    if isinstance(v, ast.BinOp) and isinstance(v.op, ast.Mod) and isinstance(v.left, (ast.Constant, ast.JoinedStr)):
+        return True
+    if isinstance(v, ast.Call):
+        f = norm(v.func)
+        if f in ('str', 'int', 'float', 'bool', 'frozenset', 'len', 'any', 'all', 'isinstance', 'issubclass', 'callable', 'hash', 'repr', 'ord', 'chr', 'abs', 'round'):
+            return True
+        if f == 'tuple':
+            return True
+        if isinstance(v.func, ast.Attribute) and v.func.attr in STR_RESULT_METHODS:
+            return True
+    return False
+
+
 def no_shared_memo(res: CheckResult, prog: Program):
     """A memoising decorator hands the *same* result object to every caller with equal arguments.  For functions that
     return (or build objects around) a mutable parse tree this makes independent objects share one document."""
@@ -741,9 +782,62 @@ def no_shared_memo(res: CheckResult, prog: Program):
             if not memo:
                 continue
             rets = [r.value for r in ast.walk(node) if isinstance(r, ast.Return) and r.value is not None]
-            immutable = all(isinstance(v, (ast.Constant, ast.JoinedStr)) or
-                            (isinstance(v, ast.Call) and norm(v.func) in ('str', 'int', 'float', 'bool', 'tuple', 'frozenset')) for v in rets)
+            immutable = all(_immutable_result(v) for v in rets)
             res.add('NO-SHARED-MEMO', node.name, f'@{memo[0]} def {node.name}', immutable,
                     '' if immutable else f'{node.name} is memoised and returns {norm(rets[0]) if rets else "?"}: every object built from an equal input shares that result '
                     '(a merge into one running order then shows up in another; a completed marker leaks to a fresh object)', m.relpath, node.lineno)
     res.add('NO-SHARED-MEMO', 'package', f'{n} function definitions scanned for memoising decorators', True)
+    no_shared_default(res, prog)
+
+
+MUTATORS = {'append', 'extend', 'insert', 'add', 'update', 'setdefault', 'pop', 'popitem', 'remove', 'clear', 'discard', 'sort', 'reverse',
+            'appendleft', 'extendleft', '__setitem__', '__delitem__'}
+
+
+def no_shared_default(res: CheckResult, prog: Program):
+    """A mutable default argument is created once, when the function is defined: a function that changes it (or hands it
+    out) keeps state from one call to the next - between two merges, two accessor reads, two listings in one process."""
+    res.rules['NO-SHARED-DEFAULT'] = ('no function of the package has a mutable default argument (list / dict / set display or constructor) that its body mutates, '
+                                      'returns, yields or stores: the object would be shared by every call that relies on the default')
+    n = 0
+    for m in prog.modules.values():
+        for node in ast.walk(m.tree):
+            if not isinstance(node, (ast.FunctionDef, ast.AsyncFunctionDef, ast.Lambda)):
+                continue
+            a = node.args
+            pos = list(a.posonlyargs) + list(a.args)
+            pairs = list(zip(pos[len(pos) - len(a.defaults):], a.defaults)) + [(p, d) for p, d in zip(a.kwonlyargs, a.kw_defaults) if d is not None]
+            for p, d in pairs:
+                mutable = isinstance(d, (ast.List, ast.Dict, ast.Set, ast.ListComp, ast.DictComp, ast.SetComp)) or \
+                    (isinstance(d, ast.Call) and norm(d.func).split('.')[-1] in ('list', 'dict', 'set', 'defaultdict', 'Counter', 'OrderedDict', 'deque', 'bytearray'))
+                if not mutable:
+                    continue
+                n += 1
+                name = p.arg
+                body = node.body if isinstance(node.body, list) else [node.body]
+                how = None
+                rebound = False
+                for b in body:
+                    for x in ast.walk(b):
+                        if isinstance(x, ast.Call) and isinstance(x.func, ast.Attribute) and isinstance(x.func.value, ast.Name) and x.func.value.id == name \
+                                and x.func.attr in MUTATORS:
+                            how = how or f'{name}.{x.func.attr}(...)'
+                        elif isinstance(x, (ast.Assign, ast.AugAssign, ast.Delete)):
+                            tg = x.targets if isinstance(x, (ast.Assign, ast.Delete)) else [x.target]
+                            for t in tg:
+                                if isinstance(t, ast.Subscript) and isinstance(t.value, ast.Name) and t.value.id == name:
+                                    how = how or f'{name}[...] is assigned / deleted'
+                                if isinstance(x, ast.AugAssign) and isinstance(t, ast.Name) and t.id == name:
+                                    how = how or f'{name} {type(x.op).__name__}= ... (in place for a list / set / dict)'
+                                if isinstance(x, ast.Assign) and isinstance(t, ast.Name) and t.id == name:
+                                    rebound = True
+                                if isinstance(x, ast.Assign) and isinstance(t, ast.Attribute) and isinstance(x.value, ast.Name) and x.value.id == name:
+                                    how = how or f'stored as {norm(t)}'
+                        elif isinstance(x, (ast.Return, ast.Yield)) and isinstance(x.value, ast.Name) and x.value.id == name:
+                            how = how or f'{"return" if isinstance(x, ast.Return) else "yield"} {name}'
+                fname = getattr(node, 'name', '<lambda>')
+                ok = how is None or rebound
+                res.add('NO-SHARED-DEFAULT', fname, f'{name}={norm(d)}', ok,
+                        '' if ok else f'{fname} has the mutable default {name}={norm(d)} and its body does {how}: the one default object is shared by all calls, '
+                        'so a call sees what earlier calls (an earlier merge, an earlier read, a failed attempt) left in it', m.relpath, d.lineno)
+    res.add('NO-SHARED-DEFAULT', 'package', f'{n} mutable default arguments found in the package', True)
